@@ -22,3 +22,21 @@ def ctor(kd, ks, tag):
 
 
 CONTRACTS = [ctor("real", "real", "delay+spread"), ctor("real", "none", "delay only"), ctor("none", "none", "undelayed")]
+
+
+# Per-unit parameters (the "per-unit params land on the right unit" clause): the statement of PopulationTemplate.apply that turns
+# one entry of `params` into the per-unit value list of a variable — a sequence with one entry per unit is distributed in order
+# (unit k receives entry k), a scalar is given to every unit; in both cases the list has exactly n entries.
+FP = "pyrates/frontend/template/population.py"
+CLASSES["PopulationTemplate"] = dict(fields={"n": "int"})
+_REGION = dict(kind="if", match="hasattr(pval, '__len__')", nth=0)
+CONTRACTS += [
+    dict(name="PopulationTemplate.apply@param-distribution[per-unit values]", prop="C16", target=f"{FP}::PopulationTemplate.apply", region=_REGION,
+         params={"self": "obj:PopulationTemplate", "pval": "seq[real]"}, requires=["self.n >= 1", "len(pval) == self.n"],
+         ensures=["len(new_val) == self.n", "forall(0, self.n, lambda k: new_val[k] == pval[k])"],
+         modifies=[], bind_locals={"new_val": (0, 0)}),
+    dict(name="PopulationTemplate.apply@param-distribution[scalar]", prop="C16", target=f"{FP}::PopulationTemplate.apply", region=_REGION,
+         params={"self": "obj:PopulationTemplate", "pval": "real"}, requires=["self.n >= 1"],
+         ensures=["len(new_val) == self.n", "forall(0, self.n, lambda k: new_val[k] == pval)"],
+         modifies=[], bind_locals={"new_val": (0, 0)}),
+]
